@@ -67,6 +67,7 @@ def check_property(pid, tier="quick", only_jobs=None, keep=False, seed=0):
     if not jobs:
         raise ToolError("no jobs registered for %s" % pid)
     known = [k for k in load_known() if k["property"] == pid]
+    core.TIER["tier"] = tier
     scr = core.Scratch(keep=keep)
     log("xv: %s tier=%s jobs=%d scratch=%s" % (pid, tier, len(jobs), scr.dir))
     cb = [j for j in jobs if j.get("kind", "cbmc") == "cbmc"]
@@ -145,7 +146,10 @@ def check_property(pid, tier="quick", only_jobs=None, keep=False, seed=0):
             samples.append(o.brief())
         per_job.append({"job": j["name"], "mode": j.get("mode", "E2"),
                         "bounded": bool(j.get("bounded")), "input_domain_bound": j.get("bound"),
-                        "cases": len(j["cases"]) if j.get("cases") else None,
+                        "cases": len(core.active_cases(j)) if j.get("cases") else None,
+                        "cases_of_full_partition": len(j["cases"]) if j.get("cases") else None,
+                        "case_subset_note": (j.get("cases_quick_note") if (tier == "quick" and j.get("cases_quick")) else None),
+                        "verdicts_reused_from_memo": bool(r.cached),
                         "functions": j.get("functions", []),
                         "obligations": len(rel), "discharged": len(ok),
                         "canaries_failing_as_required": len(can),
